@@ -13,6 +13,7 @@ import (
 type shape struct {
 	nRefs, nLogs int
 	cfg          Config
+	objs         int // > 0: the refs share this many object ids (objects referenced from many blocks)
 }
 
 func shapeName(i int) string {
@@ -39,6 +40,8 @@ func pickShape(which int) shape {
 		return shape{nRefs: 150, cfg: Config{BlockSize: 64, Unaligned: true, RestartInterval: 1, SkipIndexObjects: true}}
 	case 7: // logs only, several log blocks
 		return shape{nLogs: 10, cfg: Config{BlockSize: 128, Unaligned: true}}
+	case 8: // few objects referenced from many ref blocks (position lists of 9..20 entries)
+		return shape{nRefs: 44, objs: 3, cfg: Config{BlockSize: 64, Unaligned: true, RestartInterval: 1}}
 	}
 	return shape{nRefs: 1}
 }
@@ -57,6 +60,9 @@ func buildShape(sh shape) (refs []*RefRecord, logs []*LogRecord) {
 			v := make([]byte, hs)
 			v[0] = byte(i)
 			v[1] = byte(i >> 8)
+			if sh.objs > 0 {
+				v[0], v[1] = byte(0x40+i%sh.objs), 0
+			}
 			r.Value = v
 		}
 		refs = append(refs, r)
